@@ -114,9 +114,12 @@ func (n *ObjectNode) addChild(child Node) {
 	n.children = append(n.children, child)
 }
 
+// AddChild adds a property that belongs to another object (a property inherited
+// with the "allOf" rule). The node keeps its parent: it stays a node of the type
+// it comes from, which other schemas may be using at the same time.
 func (n *ObjectNode) AddChild(key ObjectNodeKey, child Node) {
 	n.addKey(key.Key, key.IsShortcut, key.Lex) // can panic
-	n.addChild(child)
+	n.children = append(n.children, child)
 }
 
 func (n ObjectNode) Key(index int) ObjectNodeKey {
